@@ -9,9 +9,11 @@ import (
 
 	"cosmossdk.io/math"
 	"github.com/cosmos/cosmos-sdk/client/tx"
+	codectypes "github.com/cosmos/cosmos-sdk/codec/types"
 	cryptotypes "github.com/cosmos/cosmos-sdk/crypto/types"
 	sdk "github.com/cosmos/cosmos-sdk/types"
 	"github.com/cosmos/cosmos-sdk/types/bech32"
+	txtypes "github.com/cosmos/cosmos-sdk/types/tx"
 	"github.com/cosmos/cosmos-sdk/types/tx/signing"
 	authsign "github.com/cosmos/cosmos-sdk/x/auth/signing"
 	authtypes "github.com/cosmos/cosmos-sdk/x/auth/types"
@@ -100,7 +102,7 @@ var c07ToClasses = []string{"user", "user", "fresh", "other-prefix", "bad-checks
 	"module-opchild", "module-feecollector", "module-distribution", "module-minter"}
 
 var c07Payloads = []string{"none", "none", "garbage", "truncated", "badsig", "wrongseq", "wrongchain", "ok-send", "ok-send", "ok-multi", "fail-k", "unroutable",
-	"multi-signer", "self-withdraw", "self-exec", "gas-hog", "empty-tx", "withdraw-then-fail", "send-and-withdraw", "reentrant-finalize", "withdraw-native", "withdraw-and-send", "bad-signer", "mutated", "handler-runtime-error"}
+	"multi-signer", "self-withdraw", "self-exec", "gas-hog", "empty-tx", "withdraw-then-fail", "send-and-withdraw", "reentrant-finalize", "withdraw-native", "withdraw-and-send", "bad-signer", "mutated", "handler-runtime-error", "multibyte-error"}
 
 func genC07Case(rt *rapid.T) *c07Case {
 	tc := newTwoChain(tcOpts{nExecutors: 1, fault: true})
@@ -350,6 +352,18 @@ func genC07Case(rt *rapid.T) *c07Case {
 			panic(err)
 		}
 		data = signTx(l2, []sdk.Msg{em}, []cryptotypes.PrivKey{cs.signer.Priv}, []uint64{num}, []uint64{seq}, henv.L2ChainID)
+	case "multibyte-error":
+		// a well-formed transaction envelope whose only message has an unregistered type URL made of four-byte
+		// characters: the decode error echoes it, so the failure reason is long in bytes and short in characters
+		body, err := (&txtypes.TxBody{Messages: []*codectypes.Any{{TypeUrl: "/" + strings.Repeat("\U0001F600", rapid.IntRange(20, 40).Draw(rt, "emoji"))}}}).Marshal()
+		if err != nil {
+			panic(err)
+		}
+		auth, _ := (&txtypes.AuthInfo{Fee: &txtypes.Fee{}}).Marshal()
+		data, err = (&txtypes.TxRaw{BodyBytes: body, AuthInfoBytes: auth}).Marshal()
+		if err != nil {
+			panic(err)
+		}
 	case "handler-runtime-error":
 		// a well-signed hook whose message handler hits a Go runtime error (not an explicit panic, not out of
 		// gas): the L2 admin batches a parameter update without parameters, whose validation dereferences nil
